@@ -57,6 +57,7 @@ def check(ctx):
     repo = ctx.repo
     P = repo.cls(PARAM, "Parameter")
     C = repo.cls(PARAM, "CompositeParameter")
+    ctx.rule("R16.11", "leaf equality compares the functions as wholes (code objects or the functions themselves), the keyword names and the keyword values", 3)
     ctx.rule("R16.10", "clearing the cache of a composite clears both operands whenever they are parameters (all four operand-kind combinations)", 4)
     ctx.rule("R16.9", "pickling / copying a parameter leaves the parameter itself unchanged (no write to self or to its live __dict__)", 1)
     ctx.rule("R16.1", "each of the five operators has a forward dunder (self, other, operator.X) and a reflected dunder "
@@ -218,6 +219,7 @@ def check(ctx):
     ctx.ob("R16.8", "__call__ hashes and evaluates the same (x, y, z, t)", ok, detail={"hash": call_args, "evaluate": ev_args}, where=fc.fq,
            construct="__call__ cache protocol", loc=loc(fc, fc.node), message=f"hash args {call_args}, evaluate args {ev_args}",
            consequence="the value stored under a key was computed for other arguments")
+    leaf_equality(ctx, P)
     clear_reaches_operands(ctx, C)
     from ..effects import serialisers_pure
     serialisers_pure(ctx, "R16.9", "after a composite parameter has been pickled once (tdgl.solve pickles the applied vector potential into the "
@@ -404,3 +406,32 @@ def clear_reaches_operands(ctx, C):
                                                f"instead of {want}" + (f" ({err})" if err else ""),
                    consequence="memoised values of a time-dependent operand survive the solver's cache clearing: a second solve with the same "
                                "composite (e.g. (1 - ramp) * field) evaluates stale values instead of the pointwise combination of its operands")
+
+
+def leaf_equality(ctx, P):
+    """Two leaf parameters are equal only if their functions are: comparing a projection of the code object (co_code, co_consts)
+    identifies functions that call different names (sin vs cos) and makes structurally different expressions equal."""
+    f = P.methods.get("__eq__")
+    if f is None:
+        raise AnalysisError("Parameter.__eq__ no longer exists")
+    cmps = [n for n in own_nodes(f.node) if isinstance(n, ast.Compare) and len(n.ops) == 1 and isinstance(n.ops[0], (ast.Eq, ast.NotEq))]
+    whole = [c for c in cmps if {norm(c.left), norm(c.comparators[0])} in ({"self.func.__code__", "other.func.__code__"}, {"self.func", "other.func"})]
+    projections = [norm(n) for n in own_nodes(f.node) if (isinstance(n, ast.Attribute) and n.attr.startswith("co_"))
+                   or (isinstance(n, ast.Call) and norm(n.func).endswith("attrgetter") and any(isinstance(a, ast.Constant) and str(a.value).startswith("co_") for a in n.args))]
+    ctx.ob("R16.11", "the functions are compared as wholes", len(whole) == 1 and not projections, detail={"comparisons": [norm(c) for c in cmps][:6], "projections": projections},
+           where=f.fq, construct="function comparison in Parameter.__eq__", loc=loc(f, whole[0] if whole else f.node),
+           message=f"Parameter.__eq__ compares {projections or 'no'} projection(s) of the code objects instead of the code objects themselves",
+           consequence="two leaves whose functions have the same bytecode and constants but call different names (np.sin vs np.cos) compare equal, "
+                       "and so does every composite built on them: equality is no longer structural")
+    kw_names = [c for c in cmps if {norm(c.left), norm(c.comparators[0])} == {"set(self.kwargs)", "set(other.kwargs)"}]
+    ctx.ob("R16.11", "the keyword names are compared as sets", len(kw_names) == 1, detail=[norm(c) for c in cmps][:6], where=f.fq,
+           construct="kwargs name comparison in Parameter.__eq__", message="Parameter.__eq__ no longer compares the sets of keyword names",
+           consequence="parameters with different keyword arguments compare equal")
+    loops = [l for l in own_nodes(f.node) if isinstance(l, ast.For) and norm(l.iter) in ("self.kwargs", "other.kwargs", "self.kwargs.keys()")
+             and isinstance(l.target, ast.Name)]
+    kv = loops[0].target.id if loops else "key"
+    vals = [c for c in own_nodes(f.node) if isinstance(c, ast.Call) and len(c.args) == 2 and {norm(a) for a in c.args} in (
+        {f"self.kwargs[{kv}]", f"other.kwargs[{kv}]"},)]
+    ctx.ob("R16.11", "every keyword value is compared", bool(vals) and bool(loops), detail={"value_comparisons": [norm(v) for v in vals]}, where=f.fq,
+           construct="kwargs value comparison in Parameter.__eq__", message="Parameter.__eq__ no longer compares the keyword values one by one",
+           consequence="parameters with different keyword values compare equal")
